@@ -88,6 +88,11 @@ Definition render_text (base : nat) (continues : bool) (v : bytes) : R bytes :=
   end.
 
 (* ---- expressions ---- *)
+Definition id_char (b : N) : bool :=
+  (N.leb 65 b && N.leb b 90) || (N.leb 97 b && N.leb b 122) || (N.leb 48 b && N.leb b 57) || N.eqb b 45 || N.eqb b 95.
+Definition ends_with_id_char (s : bytes) : bool :=
+  match rev s with b :: _ => id_char b | [] => false end.
+
 Definition render_key (k : variant_key) : bytes :=
   match k with KeyIdentifier n => n | KeyNumber v => v end.
 
@@ -124,7 +129,12 @@ with render_expr (ind : nat) (e : expression) : R bytes :=
                 | v :: r => a <~ render_variant ind v ;; b <~ go r ;; rret (a ++ b)
                 end) vs ;;
       k <~ choose 3 ;;
-      rret (cat [s; b1; [45; 62]%N; b2; e1; vss; sp k])
+      (* identifiers are greedy and may contain '-': a selector ending in an identifier character needs a blank before "->" *)
+      let b1' := match b1 with
+                 | [] => if ends_with_id_char s then sp 1 else []
+                 | _ => b1
+                 end in
+      rret (cat [s; b1'; [45; 62]%N; b2; e1; vss; sp k])
   end
 
 with render_variant (ind : nat) (v : variant) : R bytes :=
